@@ -224,6 +224,6 @@ theorem C04_scalar_calls {M : Module} (hM : M ∈ glueModules) {k f : Nat} (he :
   exact renamed_exec host M.funcs f _ _ ps rs fuel (isImport_sound hs) prov guest prov' args results rest locals calls hlen hhost
 
 /-- non-vacuity: the family has three modules, the first exports the whole API surface -/
-example : glueModules.length = 3 ∧ (glueModules.head?.map (·.apiExports.length)) = some 19 := by decide +kernel
+example : glueModules.length = 8 ∧ (glueModules.head?.map (·.apiExports.length)) = some 19 := by decide +kernel
 
 end SfVerif.Props.C04
